@@ -200,3 +200,66 @@ Proof.
   destruct (reachable_good matchf dirsize Hm s Hr) as [Hp _].
   apply recovery_delivers_good; try assumption. apply (p_sorted _ _ Hp).
 Qed.
+
+(* ---------- across a restart: what was retained is delivered ---------- *)
+Lemma delivered_in : forall d names x c,
+  In x names -> good_content d x = Some c -> In (x, Some c) (delivered d names).
+Proof.
+  induction names as [|n r IH]; intros x c Hin Hg; [contradiction|]. cbn [delivered].
+  destruct Hin as [Hin|Hin].
+  - subst n. rewrite Hg. left. reflexivity.
+  - destruct (good_content d n); [right|]; apply IH; assumption.
+Qed.
+
+Lemma firstn_all_in : forall {A} n (l : list A) x, (length l <= n)%nat -> In x l -> In x (firstn n l).
+Proof. intros A n l x Hl Hin. rewrite firstn_all2 by exact Hl. exact Hin. Qed.
+
+(* After Destroy has completed, a chunk of the class "retained" that was given to Accept with non-empty bytes d
+   is - with exactly those bytes - among what a consumer receives after the next start-up (on the delivering
+   schedule of recovery_delivers_good), provided the queue is large enough for all chunk files. *)
+Theorem retained_is_delivered_after_restart : forall matchf dirsize, matcher_ok matchf ->
+  matchf id_file_name = false ->
+  forall s Q M maxb x b0 d b, reachable matchf dirsize s -> settled s ->
+  In x (g_retained (st_gh s)) -> In (x, b0 :: d, b) (g_acc (st_gh s)) ->
+  (length (dir_names (st_dir s)) <= Q)%nat -> (1 <= Q)%nat -> (1 <= M)%nat ->
+  exists evs s',
+    Buffer.run matchf dirsize s (ERestart Q M maxb true :: ERegister :: evs) = Some s' /\
+    In (x, Some (b0 :: d)) (received s').
+Proof.
+  intros matchf dirsize Hm Hid s Q M maxb x b0 d b Hr Hs Hret Hacc HQ HQ1 HM1.
+  destruct Hs as (Hup & Hf & Hh).
+  pose proof (reachable_inv matchf dirsize Hm s Hr Hup) as Hinv.
+  assert (Hdown : down s = true) by (unfold down; rewrite Hf; cbn; apply Bool.orb_true_r).
+  destruct (recovery_delivers_good_reachable matchf dirsize Hm s Q M maxb Hr Hdown HQ1 HM1) as (evs & s' & Hrun & _ & _ & _ & Hrec).
+  exists evs, s'. split; [exact Hrun|]. rewrite Hrec.
+  (* the file of x holds b0 :: d *)
+  destruct (i_ret _ _ _ Hinv x Hret) as (e & He & Ho).
+  assert (Hent : In x (entered (st_gh s))) by (apply (class_entered matchf dirsize (proj1 Hm)); [exact Hinv|tauto]).
+  assert (Hin2 : In x (acc_ids (st_gh s))).
+  { unfold acc_ids. apply in_map_iff. exists (x, b0 :: d, b). split; [reflexivity|exact Hacc]. }
+  pose proof (proj1 (nodup_cnt _) (i_nodup _ _ _ Hinv)) as Hle. unfold entered in Hle.
+  assert (Hnd : NoDup (acc_ids (st_gh s))).
+  { apply nodup_cnt. intros y. specialize (Hle y). rewrite cnt_app in Hle. lia. }
+  assert (He' : e = EFile (b0 :: d)).
+  { destruct Ho as [(d' & b' & Hin' & Ee)|[Hrec' _]].
+    - (* accepted: the data is unique per ID *)
+      subst e. f_equal. unfold acc_ids in Hnd. clear - Hnd Hacc Hin'.
+      induction (g_acc (st_gh s)) as [|[[k v] f] l IH]; [contradiction|].
+      cbn [map fst] in Hnd. inversion Hnd as [|? ? Hn Hnd']; subst.
+      destruct Hacc as [Ha|Ha]; destruct Hin' as [Hi|Hi].
+      + congruence.
+      + inversion Ha; subst. exfalso. apply Hn. apply in_map_iff. exists (x, d', b'). split; [reflexivity|exact Hi].
+      + inversion Hi; subst. exfalso. apply Hn. apply in_map_iff. exists (x, b0 :: d, b). split; [reflexivity|exact Ha].
+      + apply IH; assumption.
+    - (* recovered and accepted at once: impossible, the IDs that entered are distinct *)
+      exfalso. specialize (Hle x). rewrite cnt_app in Hle. apply cnt_in in Hrec'. apply cnt_in in Hin2. lia. }
+  subst e.
+  apply delivered_in.
+  - unfold recovered_names. apply firstn_all_in.
+    + etransitivity; [apply filter_length_le|exact HQ].
+    + apply filter_In. split; [eapply dir_get_in; exact He|].
+      rewrite (i_match _ _ _ Hinv x Hent). rewrite Bool.andb_true_r.
+      apply Bool.negb_true_iff. apply name_eqb_neq. intros E. subst x.
+      rewrite (i_match _ _ _ Hinv _ Hent) in Hid. discriminate.
+  - unfold good_content. rewrite He. reflexivity.
+Qed.
